@@ -96,7 +96,12 @@ def run(case):
         if op == "parse":
             obj = stix2.parse(case["data"], allow_custom=case.get("allow", False),
                               interoperability=case.get("interop", False), version=case.get("version"))
-            return render(obj)
+            line = render(obj)
+            if case.get("want_json") and isinstance(obj, _STIXBase):
+                return {"r": line, "ser": json.loads(obj.serialize()),
+                        "ser_incl": json.loads(obj.serialize(include_optional_defaults=True)),
+                        "cls": type(obj).__module__.split(".")[1] + "/" + type(obj).__name__}
+            return line
         if op == "clean":
             # unit level: one Property instance of the live class table
             ver, cname, slot = case["cls"].split("/")[0], case["cls"].split("/")[1], case["slot"]
